@@ -225,7 +225,10 @@ class Formatter(FormatterInterface):
 
     @__call__.register(L.Assign)
     @__call__.register(L.AssignAdd)
-    def _(self, expr: L.Assign | L.AssignAdd) -> str:
+    @__call__.register(L.AssignSub)
+    @__call__.register(L.AssignMul)
+    @__call__.register(L.AssignDiv)
+    def _(self, expr: L.AssignOp) -> str:
         """Format an assignment."""
         rhs = self(expr.rhs)
         lhs = self(expr.lhs)
